@@ -60,7 +60,7 @@ def run(ctx, out, budget):
             out.nontriv((k, ops[-1]["kind"]))
         if k < 2:
             out.sample({"chain": ops[-1], "n_fs": len(d1.get("ok", {}).get("fs", {}))})
-    out.partial = ["no end-to-end theorem; chains checked on implementation and model per run"]
+    out.partial = ["chains with the JSON-embedded type system and CASes outside the common fragment: checked on implementation and model per run, no theorem"]
 
 
 def replay(ctx, payload):
